@@ -19,7 +19,7 @@ func init() {
 			"oracles: every output equals the sequential output, zero race reports, configuration and package-constant fingerprints (incl. all 350 MB of tables) unchanged, bounded progress; GOMAXPROCS {1,2,4,16} x NumCPU {2,4,16} with H7 delays; a class is (operation kind, G, GOMAXPROCS, NumCPU); non-trivial = executed while at least one other operation was in flight",
 		HangIsViolation:  true,
 		Technique:        "Go race detector over a concurrent stress workload + per-operation differential against sequentially precomputed outputs (exact linearizability check for a stateless API) + state fingerprints + runtime deadlock detector/watchdog",
-		MinEvals:         map[string]int64{"quick": 700, "thorough": 20000},
+		MinEvals:         map[string]int64{"quick": 500, "thorough": 12000},
 		MinClasses:       map[string]int64{"quick": 60, "thorough": 200},
 		RequiredCounters: []string{"concurrent_operations", "operations_overlapping_others", "fingerprint_checks", "hook.multiproof.group.send", "hook.msm.chunk.send"},
 		Assumptions: []string{
